@@ -272,6 +272,40 @@ func runC20(env *Env) {
 			rep.Violate("C20-duplicate", cs, "id repeated within the program run: "+dup)
 		}
 	}
+	// F (last: it uses up the program's pool of generator partitions): a long-running program has made more
+	// generators than there are partitions; the generators made after that (the engine falls back to its local
+	// generator when the default one cannot be had) are drawn from concurrently
+	{
+		cs := "more default generators made than the library has partitions, then 8 further generators drawn from concurrently"
+		env.Current(cs)
+		made := 0
+		for ; made < 70000; made++ {
+			if _, err := id.GetSno().NewIdGenerator(ctx, tr); err != nil {
+				break
+			}
+		}
+		gens := make([]id.IGenerator, 8)
+		late := 0
+		for i := range gens {
+			g, err := id.GetSno().NewIdGenerator(ctx, tr)
+			if err != nil {
+				g = id.NewFallbackGenerator()
+			} else {
+				late++
+			}
+			gens[i] = g
+		}
+		all := c20Draw(gens, 2, dur/4, 1<<17)
+		total, dups, ex := c20Dups(all)
+		rep.Evaluations += total
+		rep.Nontrivial++
+		rep.Distribution["late_generator_ids"] = total
+		rep.Distribution["generators_made_before"] = made
+		rep.Distribution["late_generators_from_the_default_builder"] = late
+		if dups > 0 {
+			rep.Violate("C20-duplicate", cs, fmt.Sprintf("%d generators were made first; the 8 made afterwards issued %d duplicate ids among %d, e.g. %s", made, dups, total, ex))
+		}
+	}
 	env.WriteCases(rep, "", "Corr.C20corr", "list (Z * bool * Z)", items, "c20_mismatches", "Open Scope Z_scope.")
 	env.WriteReport(rep)
 }
